@@ -59,6 +59,8 @@ def step_inv(op):
             return z3.BoolVal(False)
         cur0 = c.st.ghost['cur_at_head']
         y = ev[1][1]
+        if not is_num(y) or not is_num(ev[0][1] if isinstance(ev[0][1], V) else vreal(ev[0][1])):
+            return z3.BoolVal(False)         # what is yielded is the running value: a number
         return z3.And(to_real(y) == cur0, L.cur == op(cur0, ev[0][1]))
     return inv
 
